@@ -25,19 +25,22 @@ LEVEL = "model_checking"
 INVS = ["TypeOK", "LoadReproduces", "BuilderHasNoIds", "Separation", "MutationIsolated"]
 
 
-def _cfg(deep, family, init, nxt, invs=(), small=False):
-    t = 'CONSTANTS DeepCopy = %s  Family = "%s"  MaxMut = %d  Contexts = %s\nINIT %s\nNEXT %s\n' % (
-        "TRUE" if deep else "FALSE", family, 1 if small else 2, '{"L1", "L2", "B"}' if small else '{"L1", "L2", "L3", "B"}', init, nxt)
+def _cfg(deep, family, init, nxt, invs=(), small=False, resave_edges=True, max_ops=2):
+    t = 'CONSTANTS DeepCopy = %s  Family = "%s"  MaxMut = %d  ResaveEdges = %s  MaxOps = %d  Contexts = %s\nINIT %s\nNEXT %s\n' % (
+        "TRUE" if deep else "FALSE", family, 1 if small else 2, "TRUE" if resave_edges else "FALSE", max_ops,
+        '{"L1", "L2", "B"}' if small else '{"L1", "L2", "L3", "B"}', init, nxt)
     return t + "".join("INVARIANT %s\n" % i for i in invs)
 
 
 def _model(ctx):
     f = ctx.tlc("Persistence", "MC_PersistenceWF", "fix.cfg", files={"fix.cfg": _cfg(True, "none", "Init", "Next", INVS, small=ctx.quick)},
-                coverage=True, timeout=1800)
+                coverage=not ctx.quick, timeout=1800)
     ctx.require(f.ok, "PersistenceWF with deep-copying getters violates %s: specification error\n%s" % (f.violated, f.stdout[-800:]))
-    ctx.require_coverage(f, ["Save", "Load", "MutateLoaded"])
+    if not ctx.quick:
+        ctx.require_coverage(f, ["Save", "Load", "MutateLoaded"])
+    ctx.require(f.distinct >= 500 and f.depth >= 5, "suspiciously small history model: %d states, depth %d" % (f.distinct, f.depth))
     cex = {}
-    for inv in ctx.pick(["Separation"], ["Separation", "MutationIsolated", "LoadReproduces"]):
+    for inv in ctx.pick([], ["Separation", "MutationIsolated", "LoadReproduces"]):      # defect model: thorough tier only
         v = ctx.tlc("Persistence", "MC_PersistenceWF", "asis.cfg", files={"asis.cfg": _cfg(False, "none", "Init", "Next", [inv], small=ctx.quick)},
                     timeout=1800, count=False, workers=1)
         ctx.require(v.error == "invariant" and v.trace, "the defect model (shallow-copying cached getters) does not break %s: vacuous property" % inv)
@@ -51,17 +54,99 @@ def _model(ctx):
     return cex
 
 
-def _shapes(ctx):
-    g = ctx.tlc("Persistence", "MC_PersistenceWF", "gen.cfg", files={"gen.cfg": _cfg(True, "all", "GenInit", "GenNext")},
-                workers=1, timeout=1800)
-    ctx.require(g.ok, "shape generation failed: %s" % g.stdout[-800:])
-    shapes = [x for x in g.printed_json() if isinstance(x, dict) and "shape" in x]
-    ctx.require(len(shapes) == g.distinct and len(shapes) > 500, "emitted %d shapes, TLC found %d initial states" % (len(shapes), g.distinct))
+def _generate(ctx):
+    """One TLC run: every shape (initial states without successors) and the complete graph of the re-save histories of
+    Part 3, on which TLC checks LoadReproducesLastSaved."""
+    g = ctx.tlc("Persistence", "MC_PersistenceWF", "gen.cfg", workers=1, timeout=1800,
+                files={"gen.cfg": _cfg(True, "all", "GenInitAll", "GenNextAll", ["GraphTypeOK", "LoadReproducesLastSaved"], max_ops=ctx.pick(2, 3))})
+    ctx.require(g.ok, "generation failed / re-save model violates %s: %s" % (g.violated, g.stdout[-800:]))
+    out = g.printed_json()
+    shapes = [x for x in out if isinstance(x, dict) and "shape" in x]
+    lines = [x for x in out if isinstance(x, dict) and "act" in x]
+    ctx.require(len(shapes) > 500 and len(lines) == g.generated - len(shapes) - 1,
+                "emitted %d shapes and %d transitions, TLC generated %d states" % (len(shapes), len(lines), g.generated))
+    ctx.require({x["act"] for x in lines} == {"add_port", "add_wire", "add_step", "save", "load"}, "re-save generation incomplete")
     for s in shapes:                      # ToJson writes empty sets/sequences as []
         s["shape"]["tokens"] = sorted(s["shape"].get("tokens") or [])
         s["family"] = "tokens" if s["shape"]["tokens"] else ("pairs" if len(s["shape"]["steps"]) == 2 else "one")
     shapes.sort(key=lambda s: json.dumps(s["shape"], sort_keys=True))
-    return shapes
+    if not ctx.quick:        # the defect model (Step.save that skips persisted steps) must be refuted
+        v = ctx.tlc("Persistence", "MC_PersistenceWF", "noresave.cfg", timeout=1800, count=False, workers=1,
+                    files={"noresave.cfg": _cfg(True, "none", "InitRe", "NextRe", ["LoadReproducesLastSaved"], resave_edges=False)})
+        ctx.require(v.error == "invariant" and v.trace, "defect model (Step.save skips persisted steps) is not refuted: vacuous property")
+        ctx.extra.setdefault("defect_model_counterexamples", {})["Step.save skips persisted steps"] = [
+            dict(action=s["action"], **s["context"]) for s in v.trace[1:]]
+    return shapes, lines
+
+
+class Resaver:
+    """Replays one re-save history on real classes.  variant: which step classes stand for s1 / s2."""
+
+    def __init__(self, ctx, sf, variant):
+        self.ctx, self.sf, self.db, self.variant = ctx, sf, sf.database, variant
+        self.serial = 0
+
+    def _new_step(self, b, wf, tag):
+        from streamflow.workflow import step as wstep
+        from streamflow.workflow.port import JobPort
+        if self.variant == "combinator":
+            return wf.create_step(cls=wstep.CombinatorStep, name="/%s_%d-combinator" % (tag, self.serial), combinator=b.combinator("Dot", 1))
+        if self.variant == "loop-combinator":
+            return wf.create_step(cls=wstep.LoopCombinatorStep, name="/%s_%d-combinator" % (tag, self.serial), combinator=b.combinator("Loop", 0))
+        if self.variant == "execute":
+            return wf.create_step(cls=wstep.ExecuteStep, name="/%s_%d" % (tag, self.serial), job_port=wf.create_port(cls=JobPort, name="job_%s_%d" % (tag, self.serial)))
+        raise ValueError(self.variant)
+
+    async def run(self, path):
+        """path: transitions up to a state in which the workflow has been saved; then load (default context and builder)
+        and compare with the workflow as it was when last saved."""
+        from streamflow.core.workflow import Port
+        from streamflow.persistence.loading_context import DefaultDatabaseLoadingContext, WorkflowBuilder
+        self.serial += 1
+        b = W.Builder(self.sf, 100000 + self.serial)
+        wf = b.workflow("Workflow")
+        hist = [[t["act"]] + list(t["args"]) for t in path if t["act"] != "load"]
+        detail = {"resave": True, "variant": self.variant, "history": hist}
+        pname = lambda p: "%s_%d" % (p, self.serial)  # noqa
+        steps = {"s1": self._new_step(b, wf, "s1")}
+        steps["s1"].add_input_port("in_p1", wf.create_port(name=pname("p1")))
+        steps["s1"].add_output_port("out_p2", wf.create_port(name=pname("p2")))
+        last = None
+        try:
+            for t in path:
+                act, a = t["act"], t["args"]
+                if act == "add_port":
+                    wf.create_port(name=pname(a[0]))
+                elif act == "add_wire":
+                    port = wf.ports.get(pname(a[1])) or Port(workflow=wf, name=pname(a[1]))
+                    if a[2] == "in":
+                        steps[a[0]].add_input_port("in_" + a[1], port)
+                    else:
+                        steps[a[0]].add_output_port("out_" + a[1], port)
+                elif act == "add_step":
+                    steps[a[0]] = self._new_step(b, wf, a[0])
+                    steps[a[0]].add_input_port("in_" + a[1], wf.ports[pname(a[1])])
+                elif act == "save":
+                    await wf.save(self.db)
+                    last = W.snapshot(wf)
+        except Exception as e:
+            self.ctx.violation("raise:resave:%s" % type(e).__name__, dict(detail, err=repr(e)), "history %s raised %r" % (hist, e))
+            return
+        self.ctx.require(last is not None, "re-save history without a save")
+        for how, lc in (("load", DefaultDatabaseLoadingContext(self.db)), ("builder", WorkflowBuilder(self.db))):
+            try:
+                loaded = await lc.load_workflow(wf.persistent_id)
+            except Exception as e:
+                self.ctx.violation("raise:resave-load:%s:%s" % (how, type(e).__name__), dict(detail, err=repr(e)), "loading after %s raised %r" % (hist, e))
+                continue
+            for d in W.diffs(last, W.snapshot(loaded))[:6]:
+                attr = W.diff_attr(d)
+                x, y = str(d[2]), str(d[3])
+                missing = ("present" in x and "absent" in y) or (x.startswith("<len") and y.startswith("<len") and int(y[5:-1]) < int(x[5:-1]))
+                extra = ("absent" in x and "present" in y)
+                sig = "roundtrip:resave:%s%s" % (attr, "-missing" if missing else ("-extra" if extra else ""))
+                self.ctx.violation(sig, dict(detail, how=how, diff=[d[0], d[1], x[:200], y[:200]]),
+                                   "after %s the %s of the workflow differs from the workflow as last saved: %s saved %s, loaded %s" % (hist, how, attr, x[:80], y[:80]))
 
 
 class Checker:
@@ -227,7 +312,7 @@ def run(ctx):
                 "shape is instantiated with the scalar catalogue, saved, loaded 3 ways, compared, identity-scanned, mutated and re-read; "
                 "non-trivial = the shape has at least one step option or token beyond the bare defaults")
     cex = _model(ctx)
-    shapes = _shapes(ctx)
+    shapes, relines = _generate(ctx)
     fam = {}
     for s in shapes:
         fam.setdefault(s["family"], []).append(s)
@@ -239,12 +324,32 @@ def run(ctx):
     sel = fam["one"] + fam["tokens"] + [s for i, s in enumerate(fam["pairs"]) if (i + ctx.seed) % stride == 0]
     W._init_persistable()
     scratch = ctx.scratch("db")
+    # Part 3: every state of the re-save graph in which the workflow has been saved = one history to replay
+    from vh.sut import persist as P
+    ctx.count("resave_graph_transitions", len(relines))
+    repaths, seen_states = [], set()
+    for path in P.build_paths(relines):
+        tr = path[-1]
+        if tr["act"] == "load" and tr["_f"] not in seen_states:       # one test per state a load starts from (it loads both ways)
+            seen_states.add(tr["_f"])
+            repaths.append(path[:-1])
+    ctx.require(len(repaths) > 100, "too few re-save histories: %d" % len(repaths))
+    variants = ctx.pick(["combinator", "execute"], ["combinator", "execute", "loop-combinator"])
 
     async def main():
         from vh.sut import context as sctx
         sf = sctx.build(db=os.path.join(scratch, "c08.db"))
         ck = Checker(ctx, sf)
         try:
+            for vi, variant in enumerate(variants):
+                rs = Resaver(ctx, sf, variant)
+                # quick: the histories are dealt out to the variants in turn; thorough: every history on every variant
+                mine = [p for k, p in enumerate(repaths) if not ctx.quick or k % len(variants) == vi]
+                for path in mine:
+                    ctx.case(("resave", variant, path[-1]["_t"]), sum(1 for t in path if t["act"] == "save") > 1)
+                    await rs.run(path)
+                    ctx.count("resave_histories:%s" % variant)
+                ctx.impl_trace(len(mine))
             for item in sel:
                 sh = item["shape"]
                 trivial = item["family"] == "one" and set(sh["steps"][0]) == {"kind"}
@@ -279,6 +384,9 @@ def replay(ctx, data):
         from vh.sut import context as sctx
         sf = sctx.build(db=os.path.join(scratch, "c08.db"))
         try:
+            if d.get("resave"):
+                await Resaver(ctx, sf, d["variant"]).run([{"act": h[0], "args": h[1:]} for h in d["history"]])
+                return
             await Checker(ctx, sf).check_shape({"shape": d["shape"], "shared": []})
         finally:
             await sctx.close(sf)
